@@ -111,6 +111,10 @@ func resultNames(sig *types.Signature) []string {
 }
 
 func (w *World) verifyFunc(fi *FuncInfo, fc *FuncContract) (ex *Exec, err error) {
+	// names are local to the SMT files of this function: restart the counters so that the generated
+	// text (and hence solver behaviour) does not depend on which other functions are in the run
+	w.fresh = 0
+	bvCounter = 100000
 	ex = &Exec{w: w, fi: fi, fc: fc, info: fi.Pkg.TypesInfo, arith: "exact", assumedCalls: map[string]bool{}}
 	if fc.Arith != "" {
 		ex.arith = fc.Arith
@@ -139,11 +143,23 @@ func (w *World) verifyFunc(fi *FuncInfo, fc *FuncContract) (ex *Exec, err error)
 		if _, isFn := v.Type().Underlying().(*types.Signature); isFn {
 			val = &Val{T: intLit(1), GoT: v.Type(), FnObj: v, Mag: -1}
 		} else {
-			c := ex.freshInput("p_"+name, s)
-			val = tv(c, v.Type())
-			ex.assume(st, ex.domainFacts(c, v.Type()))
-			if ex.arith == "exact" && (s.Kind == KReal || s.Kind == KDT) {
-				val.Mag = 20
+			isFree := false
+			for _, f := range fc.Free {
+				if f == name {
+					isFree = true
+				}
+			}
+			var c *Term
+			if isFree {
+				c = ex.fresh("p_"+name, s)
+				val = tv(c, v.Type())
+			} else {
+				c = ex.freshInput("p_"+name, s)
+				val = tv(c, v.Type())
+				ex.assume(st, ex.domainFacts(c, v.Type()))
+				if ex.arith == "exact" && (s.Kind == KReal || s.Kind == KDT) {
+					val.Mag = 20
+				}
 			}
 			if isIntType(v.Type()) {
 				ex.assume(st, ex.intRange(c, v.Type()))
